@@ -35,6 +35,9 @@
                                  latest generation but only lists that generation in the
                                  transaction when it was open, so a concurrent owner change of a
                                  sealed/flushed/merged latest generation is not detected.
+                                 Intended (= the repaired code): the latest generation is always
+                                 in `updated` / `removed` (unchanged when it is not open), so any
+                                 concurrent change of it conflicts.
      TrimRemovesLatest           trim_mem_wal_index removes every merged generation, also the
                                  newest of a region; the region then restarts at generation 0.
                                  Intended: the newest generation of a region is kept.          *)
@@ -68,19 +71,19 @@ GensOf(list, r) == {list[i].g : i \in {j \in 1..Len(list) : list[j].r = r}}
 (*   kind: "none" | "memwal" (UpdateMemWalState) | "merge" (Update with    *)
 (*         mem_wal_to_merge) | "tappend" (plain Append)                    *)
 (*   removed: set of ids (removal is by id);  guard: ids whose owner the   *)
-(*   API call compared with expected_owner_id;  chown: ids whose owner it  *)
-(*   changes;  rv: read version;  op: the API call that built it           *)
+(*   API call compared with expected_owner_id;  rv: read version;          *)
+(*   op: the API call that built it                                        *)
 (***************************************************************************)
 NoCall == [k |-> "none", r |-> "", g |-> 0, exp |-> "", own |-> "", eid |-> 0]
 NoTxn == [kind |-> "none", added |-> <<>>, updated |-> <<>>, removed |-> {}, toMerge |-> <<>>,
-          guard |-> {}, chown |-> {}, rv |-> 0, op |-> NoCall]
+          guard |-> {}, rv |-> 0, op |-> NoCall]
 Writes(t) == Ids(t.added) \cup Ids(t.updated) \cup Ids(t.toMerge)
 
 Pre(c) == [pre |-> c, txn |-> NoTxn]
 OkT(t) == [pre |-> "ok", txn |-> t]
 
 \* op = [k, r, g, exp, own, eid]   exp = "" means expected_owner_id = None
-BuildAdvance(V, op) ==
+BuildAdvance(D, V, op) ==
   IF ~V.idx \/ GensOf(V.list, op.r) = {}
   THEN IF op.exp # "" THEN Pre("invalid")
        ELSE OkT([NoTxn EXCEPT !.kind = "memwal", !.added = <<Entry(op.r, 0, Open, op.own, 0, 0)>>])
@@ -89,8 +92,10 @@ BuildAdvance(V, op) ==
        IN IF op.exp = "" \/ op.exp # latest.own THEN Pre("invalid")
           ELSE OkT([NoTxn EXCEPT !.kind = "memwal",
                                  !.added = <<Entry(op.r, lg + 1, Open, op.own, 0, 0)>>,
-                                 !.updated = IF latest.st = Open THEN <<[latest EXCEPT !.st = Sealed]>> ELSE <<>>,
-                                 !.removed = IF latest.st = Open THEN {Id(latest)} ELSE {},
+                                 !.updated = IF latest.st = Open THEN <<[latest EXCEPT !.st = Sealed]>>
+                                             ELSE IF "AdvanceIgnoresClosedLatest" \in D THEN <<>> ELSE <<latest>>,
+                                 !.removed = IF latest.st = Open \/ "AdvanceIgnoresClosedLatest" \notin D
+                                             THEN {Id(latest)} ELSE {},
                                  !.guard = {Id(latest)}])
 
 \* mutate_mem_wal with the closure of each public function
@@ -114,8 +119,7 @@ BuildMutate(V, op) ==
                          /\ (op.k = "append" => op.eid > old.hi)
        IN IF ~valid THEN Pre("invalid")
           ELSE OkT([NoTxn EXCEPT !.kind = "memwal", !.updated = <<new>>, !.removed = {id},
-                                 !.guard = IF op.k = "owner" THEN {} ELSE {id},
-                                 !.chown = IF op.k = "owner" THEN {id} ELSE {}])
+                                 !.guard = IF op.k = "owner" THEN {} ELSE {id}])
 
 BuildTrim(D, V) ==
   IF ~V.idx THEN Pre("unsupported")
@@ -134,7 +138,7 @@ BuildMMerge(V, op) ==
        ELSE OkT([NoTxn EXCEPT !.kind = "merge", !.toMerge = <<old>>, !.guard = {id}])
 
 BuildOp(D, V, op) ==
-  CASE op.k = "advance" -> BuildAdvance(V, op)
+  CASE op.k = "advance" -> BuildAdvance(D, V, op)
     [] op.k \in {"append", "seal", "flush", "merge", "owner"} -> BuildMutate(V, op)
     [] op.k = "trim" -> BuildTrim(D, V)
     [] op.k = "mmerge" -> BuildMMerge(V, op)
@@ -161,7 +165,6 @@ Check(D, self, other) ==
          ELSE IF \/ SameFirst(other.added, self.added) \/ SameFirst(other.added, self.updated)
                  \/ SameFirst(other.updated, self.added) \/ SameFirst(other.updated, self.updated)
               THEN "incompatible"
-         ELSE IF "AdvanceIgnoresClosedLatest" \notin D /\ self.guard \cap other.chown # {} THEN "incompatible"
          ELSE "ok"
     [] sk = "memwal" /\ ok = "merge" ->
          IF "MemWalIgnoresMerge" \notin D /\ selfW \cap Ids(other.toMerge) # {} THEN "incompatible" ELSE "ok"
@@ -256,20 +259,31 @@ Predict(D, vs, rv, op) ==
       res == IF b.pre # "ok" THEN b.pre ELSE Outcome(D, t, vs)
   IN [res |-> res, t |-> t,
       ver |-> IF res = "ok" THEN NewVersion(vs[Len(vs)], t, Len(vs) + 1) ELSE vs[Len(vs)]]
-\* a deviation is necessary for a step when the as-built prediction changes if it alone is switched off
-\* (a call through an up-to-date handle meets no conflict rule; only trim's own construction deviates)
-NecSeq(vs, rv, op) ==
-  IF rv = Len(vs) /\ op.k # "trim" THEN <<>>
-  ELSE LET pa == Predict(AsBuilt, vs, rv, op) IN
-       SelectSeq(AsBuiltSeq, LAMBDA d : LET p == Predict(AsBuilt \ {d}, vs, rv, op)
-                                        IN p.res # pa.res \/ p.ver.list # pa.ver.list)
-\* Finding signatures of a whole history: <<invariant, deviations>> for every newly broken invariant of
-\* every version; a violating commit that needed no deviation itself inherits those of the closest earlier
-\* commit that did (e.g. the advance that restarts at generation 0 after a trim removed the newest one)
-SigsOf(vs) ==
+\* The deviations that explain an observed step: the smallest subset D of B (the deviations believed to
+\* describe the code) whose prediction is the observed result class and, for a committed call, the observed
+\* index.  A repaired defect simply stops needing its deviation; a step that no subset explains is a
+\* nonconformance.
+Matches(D, vs, rv, op, res, idx, list) ==
+  LET p == Predict(D, vs, rv, op) IN
+  p.res = res /\ (res = "ok" => (p.ver.idx = idx /\ p.ver.list = list))
+RECURSIVE ExplainK(_, _, _, _, _, _, _, _)
+ExplainK(k, B, vs, rv, op, res, idx, list) ==
+  LET S == {D \in kSubset(k, B) : Matches(D, vs, rv, op, res, idx, list)} IN
+  IF S # {} THEN LET D == CHOOSE x \in S : TRUE
+                 IN [ok |-> TRUE, dev |-> SelectSeq(AsBuiltSeq, LAMBDA d : d \in D), p |-> Predict(D, vs, rv, op)]
+  ELSE IF k >= Cardinality(B) THEN [ok |-> FALSE, dev |-> <<>>, p |-> Predict(B, vs, rv, op)]
+  ELSE ExplainK(k + 1, B, vs, rv, op, res, idx, list)
+Explain(B, vs, rv, op, res, idx, list) == ExplainK(0, B, vs, rv, op, res, idx, list)
+
+\* Finding signatures of a whole history built with deviations B: <<invariant, deviations>> for every newly
+\* broken invariant of every version; a violating commit that needed no deviation itself inherits those of
+\* the closest earlier commit that did (e.g. the advance that restarts at generation 0 after a trim removed
+\* the newest one)
+SigsOf(B, vs) ==
   LET n == Len(vs)
       necF == [k \in 2..n |-> IF vs[k].txn.kind = "none" THEN <<>>
-                              ELSE NecSeq(SubSeq(vs, 1, k - 1), vs[k].txn.rv, vs[k].txn.op)]
+                              ELSE Explain(B, SubSeq(vs, 1, k - 1), vs[k].txn.rv, vs[k].txn.op,
+                                           "ok", vs[k].idx, vs[k].list).dev]
       devF == [k \in 2..n |-> LET J == {j \in 2..k : necF[j] # <<>>} IN IF J = {} THEN <<>> ELSE necF[Max(J)]]
   IN UNION {{<<nm, devF[k]>> : nm \in Fresh(vs, k)} : k \in 2..n}
 =============================================================================
